@@ -89,6 +89,9 @@ const (
 
 	RtcpHeaderLength = 4
 
+	// RtcpSrMinLength header, sender ssrc and the 20 bytes of sender info: what ParseSr reads
+	RtcpSrMinLength = 28
+
 	RtcpVersion = 2
 )
 
@@ -109,6 +112,7 @@ type Sr struct {
 	OctetCnt   uint32
 }
 
+// ParseRtcpHeader @param b 注意，调用方保证长度>= RtcpHeaderLength
 func ParseRtcpHeader(b []byte) RtcpHeader {
 	var h RtcpHeader
 	h.Version = b[0] >> 6
@@ -121,7 +125,7 @@ func ParseRtcpHeader(b []byte) RtcpHeader {
 
 // ParseSr rfc3550 6.4.1
 //
-// @param b rtcp包，包含包头
+// @param b rtcp包，包含包头。注意，调用方保证长度>= RtcpSrMinLength
 func ParseSr(b []byte) Sr {
 	var s Sr
 	s.SenderSsrc = bele.BeUint32(b[4:])
